@@ -1220,7 +1220,9 @@ impl<'a> TLVSequenceTLVIter<'a> {
 
             if control.is_container_start() {
                 self.nesting += 1;
-            } else if control.is_container_end() {
+            } else if control.is_container_end() && self.nesting > 0 {
+                // At nesting level 0, the end marker is the one of the enclosing
+                // container (i.e. the end of the sequence); it closes nothing of ours
                 self.nesting -= 1;
             }
         }
